@@ -676,7 +676,7 @@ def obligations(tier: str) -> List[Ob]:
         f(kernel, tree, n_ascii, alphabet=ascii_, name=_name(tree) + '.ascii')
 
     # ---- K8
-    n8 = 2 if quick else 3
+    n8 = 1 if quick else 2
 
     def a8(tree, is_m, maxlen=None, minlen_e=0, maxlen_e=1, alphabet_e='ab', name=None, expect=ob.CONFIRM,
            oracle_bug=False, timeout=300):
@@ -708,17 +708,18 @@ def obligations(tier: str) -> List[Ob]:
             stubs=tuple(stubs), outside=(OUT_SRC, OUT_UNI, OUT_RE),
             entry='one parsed sdv: resolve(symbols 1) ... resolve(symbols 2) -> primitives applied to two texts'))
 
-    a8(('equals',), True, maxlen_e=2, alphabet_e='a\n')
+    a8(('equals',), True, maxlen_e=1 if quick else 2, alphabet_e='a\n')
     a8(('matches', True, 'E'), True, minlen_e=1)
     a8(('matches', False, 'E'), True, minlen_e=1)
-    a8(('any', ('contents', ('matches', True, 'E'))), True, minlen_e=1)
     a8(('every', ('and', ('U',), ('linenum', '<='))), True)
-    a8(('on', ('replace', False, None, 'a', 'E'), ('numlines', '==')), True, alphabet_e='b\n')
     a8(('replace', False, None, 'E', 'X'), False, minlen_e=1)
     a8(('replace', True, None, 'a', 'E'), False, alphabet_e='b\n')
     a8(('grep', 'E'), False, minlen_e=1)
-    a8(('filter', ('contents', ('equals',))), False)
     a8(('seq', ('strip',), ('grep', 'a')), False)
+    if not quick:
+        a8(('any', ('contents', ('matches', True, 'E'))), True, minlen_e=1)
+        a8(('on', ('replace', False, None, 'a', 'E'), ('numlines', '==')), True, alphabet_e='b\n')
+        a8(('filter', ('contents', ('equals',))), False)
     a8(('matches', True, 'E'), True, minlen_e=1, name='seeded-oracle-error', expect=ob.REFUTE, oracle_bug=True)
 
     # ---- K7
